@@ -1103,6 +1103,9 @@ func (e *Enc) execInstr(ins ssa.Instruction) error {
 		mt := x.Map.Type().Underlying().(*types.Map)
 		m := e.val(x.Map)
 		e.oblige("SAFE.nil", "", nil, Not(Eq(m, IntLit(0))), "assignment to entry in nil map", x.Pos())
+		if types.IsInterface(mt.Key()) {
+			e.hashObligation(e.val(x.Key), x.Pos(), "map key")
+		}
 		hn, dn := e.mapHeap(mt), e.mapDomHeap(mt)
 		h := e.lookup(e.cur, hn, e.mapHeapSort(mt))
 		d := e.lookup(e.cur, dn, e.mapDomSort(mt))
@@ -1536,6 +1539,8 @@ func (e *Enc) makeIface(v Term, t types.Type) Term {
 		return v
 	}
 	tid := IntLit(int64(e.tr.tid(t)))
+	e.sc.DeclareFun("hashableT", []string{SInt}, SBool)
+	e.sc.AssertKeyed("hashableT "+tid.S, Eq(App(SBool, "hashableT", tid), BoolLit(types.Comparable(t))))
 	var iv Term
 	switch v.Sort {
 	case SInt:
@@ -1548,6 +1553,20 @@ func (e *Enc) makeIface(v Term, t types.Type) Term {
 		iv = App(SInt, fn, v)
 	}
 	return App(SIface, "mkiface", tid, iv)
+}
+
+// hashObligation: an interface value used as a map or sync.Map key is hashed; hashing a value whose dynamic type is
+// not comparable (slice, map, function, or a struct/array containing one) panics. hashableT is an uninterpreted
+// predicate over dynamic type ids, fixed for every type the function itself boxes (makeIface); a value of unknown
+// origin (a recovered panic value, a result of an unmodelled call) may have any dynamic type.
+func (e *Enc) hashObligation(key Term, pos token.Pos, what string) {
+	if key.Sort != SIface {
+		return
+	}
+	e.sc.DeclareFun("hashableT", []string{SInt}, SBool)
+	ityp := App(SInt, "ityp", key)
+	e.assumed["a comparable struct or array type with interface-typed fields holds only comparable values in them when hashed"] = true
+	e.oblige("SAFE.hash", "", nil, Or(Eq(ityp, IntLit(0)), App(SBool, "hashableT", ityp)), what+" of interface type: its dynamic type must be comparable (hashing an unhashable value panics)", pos)
 }
 
 func (e *Enc) execTypeAssert(x *ssa.TypeAssert) error {
@@ -1672,6 +1691,9 @@ func (e *Enc) execLookup(x *ssa.Lookup) error {
 		h := e.lookup(e.cur, e.mapHeap(u), e.mapHeapSort(u))
 		d := e.lookup(e.cur, e.mapDomHeap(u), e.mapDomSort(u))
 		k := e.val(x.Index)
+		if types.IsInterface(u.Key()) {
+			e.hashObligation(k, x.Pos(), "map key")
+		}
 		in := And(Not(Eq(m, IntLit(0))), Select(Select(d, m), k))
 		v := Ite(in, Select(Select(h, m), k), e.tr.zeroOf(u.Elem()))
 		if x.CommaOk {
